@@ -104,6 +104,8 @@ type BMC struct {
 	// Fallback answers commands the reference does not know (harness-defined
 	// extension commands).
 	Fallback Handler
+	// RawBodies are the response bodies RawFallback serves, by NetFn<<8|command.
+	RawBodies map[uint16][]byte
 
 	// RMCPSeq, if non-zero, is the RMCP sequence number of every IPMI-class reply
 	// (default 0xFF).
@@ -532,4 +534,13 @@ func (b *BMC) AllProblems() []string {
 		}
 	}
 	return out
+}
+
+// RawFallback answers a command the reference does not know with the body
+// registered for it in RawBodies (normal completion code), 0xC1 otherwise.
+func RawFallback(b *BMC, rx *Rx) (byte, []byte) {
+	if body, ok := b.RawBodies[key(rx.Msg.NetFn, rx.Msg.Cmd)]; ok {
+		return 0, body
+	}
+	return 0xC1, nil
 }
